@@ -48,6 +48,8 @@ type TierCfg struct {
 	Workers   int              `json:"workers"`
 	ReverseMaps bool           `json:"reverse_maps"`
 	Solvers   []string         `json:"solvers"`
+	// GenInclude: generated harnesses (names containing "_Parse_" / "_Model_") run only if they contain one of these substrings
+	GenInclude []string        `json:"gen_include"`
 }
 
 type HarnessCfg struct {
@@ -59,6 +61,7 @@ type HarnessCfg struct {
 }
 
 type PropCfg struct {
+	Generators  []string               `json:"generators"`
 	Description string                 `json:"description"`
 	Tiers       map[string]*TierCfg    `json:"tiers"`
 	Harness     map[string]*HarnessCfg `json:"harness"`
@@ -120,6 +123,22 @@ func loadHarnessFiles(id string) ([]harnessFile, error) {
 			return nil, fmt.Errorf("%s: missing //verif:dir or package clause", f)
 		}
 		out = append(out, harnessFile{path: f, dir: string(m[1]), pkgName: string(pm[1]), src: src})
+	}
+	// generated harnesses (config.json "generators")
+	var cfg PropCfg
+	if data, err := os.ReadFile(filepath.Join(verifDir, "harness", id, "config.json")); err == nil {
+		json.Unmarshal(data, &cfg)
+	}
+	for _, g := range cfg.Generators {
+		gf, ok := generators[g]
+		if !ok {
+			return nil, fmt.Errorf("unknown harness generator %q", g)
+		}
+		hs, err := gf(id)
+		if err != nil {
+			return nil, err
+		}
+		out = append(out, hs...)
 	}
 	if len(out) == 0 {
 		return nil, fmt.Errorf("no harness files for %s", id)
@@ -256,6 +275,9 @@ func (r *runner) tierCfg(h string) *TierCfg {
 		if t.Solvers != nil {
 			base.Solvers = t.Solvers
 		}
+		if t.GenInclude != nil {
+			base.GenInclude = t.GenInclude
+		}
 		base.Skip = base.Skip || t.Skip
 		base.ReverseMaps = base.ReverseMaps || t.ReverseMaps
 	}
@@ -327,8 +349,8 @@ func (r *runner) run() int {
 	nw := r.workers
 	if nw == 0 {
 		nw = runtime.NumCPU()
-		if r.tier == "quick" && nw > 8 {
-			nw = 8
+		if nw > 16 {
+			nw = 16
 		}
 	}
 	for _, fn := range entries {
@@ -339,6 +361,17 @@ func (r *runner) run() int {
 		tc := r.tierCfg(name)
 		if tc.Skip {
 			continue
+		}
+		if len(tc.GenInclude) > 0 && (strings.Contains(name, "_Parse_") || strings.Contains(name, "_Model_")) {
+			inc := false
+			for _, g := range tc.GenInclude {
+				if strings.Contains(name, g) {
+					inc = true
+				}
+			}
+			if !inc {
+				continue
+			}
 		}
 		w := nw
 		if tc.Workers != 0 {
